@@ -5,6 +5,7 @@ usage: organize_seeded.py <results-log> [<results-log> ...]   (later logs overri
 import json, os, re, shutil, sys, glob, subprocess
 def sid_of(path):
     pid = os.path.basename(os.path.dirname(path)); n = re.sub(r'\D', '', os.path.basename(path))
+    if 'seeded-incoming9' in path: return f"{pid}-r9-{n}"
     if 'seeded-incoming8' in path: return f"{pid}-r8-{n}"
     if 'seeded-incoming7' in path: return f"{pid}-r7-{n}"
     if 'seeded-incoming6' in path: return f"{pid}-r6-{n}"
@@ -22,12 +23,12 @@ for log in sys.argv[1:]:
         m = re.match(r'FIRED:(.*)', line)
         if m and cur:
             now = [x for x in m.group(1).split() if x != 'none']
-            if '-r6-' in cur or '-r7-' in cur or '-r8-' in cur:  # later runs of the held-out round re-run single checks only: keep the union
+            if '-r6-' in cur or '-r7-' in cur or '-r8-' in cur or '-r9-' in cur:  # later runs of the held-out round re-run single checks only: keep the union
                 now = sorted(set(now) | set(fired.get(cur, ([], None))[0]))
             fired[cur] = (now, os.path.basename(log))
             first_run.setdefault(cur, [x for x in m.group(1).split() if x != 'none'])
 confirm = {}
-for d in ('seeded-incoming', 'seeded-incoming2', 'seeded-incoming3', 'seeded-incoming4', 'seeded-incoming6', 'seeded-incoming7', 'seeded-incoming8'):
+for d in ('seeded-incoming', 'seeded-incoming2', 'seeded-incoming3', 'seeded-incoming4', 'seeded-incoming6', 'seeded-incoming7', 'seeded-incoming8', 'seeded-incoming9'):
     p = f'/verif/{d}/CONFIRM.log'
     if not os.path.exists(p): continue
     for line in open(p, errors='replace'):
@@ -36,7 +37,7 @@ for d in ('seeded-incoming', 'seeded-incoming2', 'seeded-incoming3', 'seeded-inc
 head = subprocess.run(['git','-C','/repo','rev-parse','--short','HEAD'],capture_output=True,text=True).stdout.strip()
 os.makedirs('/verif/seeded', exist_ok=True)
 rows = []
-for rnd, d0 in ((1, 'seeded-incoming'), (2, 'seeded-incoming2'), (3, 'seeded-incoming3'), (4, 'seeded-incoming4'), (6, 'seeded-incoming6'), (7, 'seeded-incoming7'), (8, 'seeded-incoming8')):
+for rnd, d0 in ((1, 'seeded-incoming'), (2, 'seeded-incoming2'), (3, 'seeded-incoming3'), (4, 'seeded-incoming4'), (6, 'seeded-incoming6'), (7, 'seeded-incoming7'), (8, 'seeded-incoming8'), (9, 'seeded-incoming9')):
     for d in sorted(glob.glob(f'/verif/{d0}/C[0-9][0-9]')):
         pid = os.path.basename(d)
         for n in ('1', '2'):
@@ -53,24 +54,24 @@ for rnd, d0 in ((1, 'seeded-incoming'), (2, 'seeded-incoming2'), (3, 'seeded-inc
             json.dump({
                 'id': sid, 'property': pid, 'round': rnd,
                 'summary': meta.get('summary'), 'needs_to_manifest': meta.get('needs'),
-                'origin': 'independent sub-agent given only the property text and a scratch worktree (nothing from /verif)' + (' ; round 2: asked for hard-to-find changes (conjunctions, interior values, call histories, leaked state)' if rnd == 2 else ' ; round 3: asked for regressions framed as optimisations, refactors, hardening or small features' if rnd == 3 else ' ; round 4: asked for something new: less-travelled trait impls and accessors, integer widths, allocation/capacity, evaluation order, equality' if rnd == 4 else ' ; round 6 (held out: written after the harness was frozen at c617b9d, all 20 quick checks run once, no harness change before the first run): asked for one small local slip and one larger well-intentioned edit'  if rnd == 6 else ' ; round 7 (held out again: written after the harness was frozen at a59d84f; told which 20 families of slips earlier rounds had produced and asked for something else -- interplay between functions, trait impls, error variants, LOCAL/UNKNOWN semantics, earlier calls on the same value; first run: the target property and 4-8 neighbouring quick checks)' if rnd == 7 else ' ; round 8 (held out: harness frozen at d253a2c; asked for routine maintenance commits -- clippy fixes, idiom modernisation, de-duplication, std helpers whose edge cases differ from the hand-written code; first run: the target property and 2-4 neighbouring quick checks)' if rnd == 8 else ''),
+                'origin': 'independent sub-agent given only the property text and a scratch worktree (nothing from /verif)' + (' ; round 2: asked for hard-to-find changes (conjunctions, interior values, call histories, leaked state)' if rnd == 2 else ' ; round 3: asked for regressions framed as optimisations, refactors, hardening or small features' if rnd == 3 else ' ; round 4: asked for something new: less-travelled trait impls and accessors, integer widths, allocation/capacity, evaluation order, equality' if rnd == 4 else ' ; round 6 (held out: written after the harness was frozen at c617b9d, all 20 quick checks run once, no harness change before the first run): asked for one small local slip and one larger well-intentioned edit'  if rnd == 6 else ' ; round 7 (held out again: written after the harness was frozen at a59d84f; told which 20 families of slips earlier rounds had produced and asked for something else -- interplay between functions, trait impls, error variants, LOCAL/UNKNOWN semantics, earlier calls on the same value; first run: the target property and 4-8 neighbouring quick checks)' if rnd == 7 else ' ; round 8 (held out: harness frozen at d253a2c; asked for routine maintenance commits -- clippy fixes, idiom modernisation, de-duplication, std helpers whose edge cases differ from the hand-written code; first run: the target property and 2-4 neighbouring quick checks)' if rnd == 8 else ' ; round 9 (held out: harness frozen at 0ba8bdf; asked for DEEP TRIGGERS -- changes that need long call sequences, sections of many items, state accumulated over items or calls, several distant fields at once, unremarkable mid-range lengths -- i.e. aimed at what lies beyond the explored bounds; first run: the target property only)' if rnd == 9 else ''),
                 'sub_agent_ran': meta.get('ran'),
                 'ported': (os.path.exists(orig) and 'delivered against 808db6c; re-expressed on the current HEAD after the fix 289077f restructured Writer (same slip, same demo)') or None,
                 'confirmed_by_me': dict(confirm.get(sid, {}), how='confirm_seeded.sh in a scratch worktree: demo dropped into tests/, run on the unmodified tree and with the patch; `cargo test --workspace --no-fail-fast --offline --lib` with the patch'),
-                'checks_that_fire': {'tier': 'quick', 'properties': f[0], 'first_witness': first.get(sid, {}), 'checks_run': ('all 20 quick checks' if rnd == 6 else 'the target property and the neighbouring checks listed in the first-run log' if rnd in (7, 8) else 'the target property and every check that fired in earlier runs'), 'how': 'try_patch.sh: git -C /repo apply, ./check <ID> quick, git -C /repo checkout -- .', 'repo_head': head, 'log': f[1]},
+                'checks_that_fire': {'tier': 'quick', 'properties': f[0], 'first_witness': first.get(sid, {}), 'checks_run': ('all 20 quick checks' if rnd == 6 else 'the target property and the neighbouring checks listed in the first-run log' if rnd in (7, 8) else 'the target property only' if rnd == 9 else 'the target property and every check that fired in earlier runs'), 'how': 'try_patch.sh: git -C /repo apply, ./check <ID> quick, git -C /repo checkout -- .', 'repo_head': head, 'log': f[1]},
                 'caught_by_target_property': pid in f[0],
-                **({'held_out_first_run': {'properties': first_run.get(sid, []), 'caught_by_target_property': pid in first_run.get(sid, []), 'harness_commit': {6: 'c617b9d', 7: 'a59d84f', 8: 'd253a2c'}[rnd]}} if rnd in (6, 7, 8) else {}),
+                **({'held_out_first_run': {'properties': first_run.get(sid, []), 'caught_by_target_property': pid in first_run.get(sid, []), 'harness_commit': {6: 'c617b9d', 7: 'a59d84f', 8: 'd253a2c', 9: '0ba8bdf'}[rnd]}} if rnd in (6, 7, 8, 9) else {}),
             }, open(f'{out}/meta.json', 'w'), indent=1)
-            rows.append((sid, pid, rnd, (meta.get('summary') or '')[:150].replace('|', '/'), f[0], (meta.get('needs') or '')[:160].replace('|', '/'), first_run.get(sid, []) if rnd in (6, 7, 8) else None))
+            rows.append((sid, pid, rnd, (meta.get('summary') or '')[:150].replace('|', '/'), f[0], (meta.get('needs') or '')[:160].replace('|', '/'), first_run.get(sid, []) if rnd in (6, 7, 8, 9) else None))
 with open('/verif/seeded/RESULTS.md', 'w') as o:
     o.write('# Seeded changes from independent sub-agents: which quick checks fire\n\n')
     o.write(f'Produced by `run_matrix.sh` against /repo at {head} (each change applied with `git -C /repo apply`, pinned suite re-run, checks run, tree restored). For each change the check of its own property and every check that fired in an earlier run were run.\n\n')
-    o.write('Round 6 was held out: its 40 changes were written after the harness had been frozen (commit c617b9d) and all 20 quick checks were run once on each before anything was changed; the last column is that first run. Round 7 was held out in the same way (harness frozen at a59d84f; first run = the target property and 4-8 neighbouring checks), and so was round 8 (harness frozen at d253a2c; target property and 2-4 neighbours).\n\n')
-    o.write('| id | round | what was changed | needs | checks that fire | caught by own property | held-out first run (rounds 6, 7, 8) |\n|---|---|---|---|---|---|---|\n')
+    o.write('Round 6 was held out: its 40 changes were written after the harness had been frozen (commit c617b9d) and all 20 quick checks were run once on each before anything was changed; the last column is that first run. Round 7 was held out in the same way (harness frozen at a59d84f; first run = the target property and 4-8 neighbouring checks), and so was round 8 (harness frozen at d253a2c; target property and 2-4 neighbours) and round 9 (frozen at 0ba8bdf; deliberately aimed beyond the explored bounds; target property only).\n\n')
+    o.write('| id | round | what was changed | needs | checks that fire | caught by own property | held-out first run (rounds 6-9) |\n|---|---|---|---|---|---|---|\n')
     for sid, pid, rnd, summ, f, needs, fr in rows:
         o.write(f"| {sid} | {rnd} | {summ} | {needs} | {' '.join(f) or 'none'} | {'yes' if pid in f else '**no**'} | {'' if fr is None else (' '.join(fr) or '**none**') + ('' if pid in fr else ' (own property: **no**)')} |\n")
     tot = len(rows); det = sum(1 for r in rows if r[4]); own = sum(1 for r in rows if r[1] in r[4])
-    for rr in (6, 7, 8):
+    for rr in (6, 7, 8, 9):
         r6 = [r for r in rows if r[2] == rr]
         o.write(f'\nHeld-out round {rr}, first run: {len(r6)} changes, {sum(1 for r in r6 if r[6])} detected by at least one check that was run, {sum(1 for r in r6 if r[1] in r[6])} by the check of their own property.\n')
     o.write(f'\n{tot} changes, {det} detected by at least one check, {own} by the check of the property they were written against.\n')
